@@ -79,12 +79,7 @@ Definition scase_sig (c : scase) : N :=
   else 0%N.
 
 (* ---- CS: the model's prediction ---- *)
-Definition ev_replies (ev : list event) : list N :=
-  flat_map (fun e => match e with EReply _ _ c => [c] | _ => [] end) ev.
-Definition ev_panic (ev : list event) : bool :=
-  existsb (fun e => match e with EPanic _ => true | _ => false end) ev.
-Definition ev_denied (ev : list event) : bool :=
-  existsb (fun e => match e with EAsk _ _ false => true | _ => false end) ev.
+(* ev_replies, ev_panic, ev_denied: projections of one datagram's events, in Model.v *)
 
 Definition model_run (c : scase) : list (list event) := run (s_svc c) [] [] (map fst (s_h c)).
 
